@@ -12,6 +12,13 @@ S2  scenarios: (a) one per transition of bounded instances of the same spec (pay
     larger instance, (c) seeded mutations of valid payloads (byte flips, truncation, type swaps, nulls, nesting, huge
     numbers, duplicate keys, garbage) and raw random bytes, (d) random rules written in each module's JSON wire format
     (round trip, ids included), (e) every / every n-th proper prefix of valid payloads, (f) fixed patterns.
+    (g) WIRE FORMAT OF HOT-SPOT SPECIFIC ITEMS: one rule whose specificItems mix the four kinds (int, string, bool, float64)
+    with boundary-rich values (0, negative, 2^31, 2^53-1, 11..15-digit integers carried as float64, 1.5, 1.23456789 -> five
+    decimals, 1e-7, 1e300, empty / unicode strings, every bool spelling), several spellings of the same number and thresholds
+    0 / 1 / large.  The scenario states the denoted value structurally; DatasourceProp!DescribedKeys / Round5 / ItemsOK say
+    which typed keys the decoded map must hold (the driver reports the decoded Go keys in a canonical form and never calls
+    the converter's normalisation), ItemProbeOK that a request whose argument IS the described value is limited by the item's
+    own threshold.  Design level: ConvKey / ConverterKeyIsDescribed on a bounded universe of decimals, spec mutant itemTruncates.
 S3  harness/cmd/c18 delivers the bytes to handlers built through the public constructors of ext/datasource (panics
     recovered and recorded) or writes / truncates / renames / removes the file of a file datasource, and records the
     returned error, the number of downstream updates and module.GetRules() as canonical tokens.  The driver decides the
@@ -156,6 +163,109 @@ def truncall_scenario(rng, mod, tr, stride):
             dict(op='truncall', l=l, stride=stride, off=rng.randrange(stride))]
 
 
+# ---------------------------------------------------------------------------------------------- wire format of specific items
+FLOATS = ['0', '-0.0', '1.5', '-1.5', '1.23456789', '0.123456789', '-0.123456789', '2.000004', '2.000006', '2.000005', '0.00001', '0.000004',
+          '0.000006', '1e-7', '-1e-7', '0.99999999', '9.999996', '-9.999996', '99999.999996', '1e3', '1000', '1e300', '-2.5e-300',
+          '1.7976931348623157e308', '5e-324', '2147483648', '4294967296', '-4294967297', '9007199254740991', '9007199254740992',
+          '8613812345678', '8613812345678.5', '861381234567.25', '-8613812345678', '4503599627370497', '123456789.123456', '1234567890.12345',
+          '12345678901.2345', '0.1', '0.3', '100000.00001', '3.14159', '2.71828182']
+INTS = ['0', '-0', '1', '-1', '7', '42', '2147483647', '2147483648', '-2147483648', '4294967296', '9007199254740991', '-9007199254740993',
+        '9223372036854775807', '-9223372036854775808', '8613812345678']
+STRINGS = ['', ' ', 'x', 'alice', 'true', 'false', '7', '1.5', '8613812345678', 'a"b\\c', 'null', 'caf\u00e9', '\u65e5\u672c\u8a9e', 'tab\there', 'A' * 80, '{"k":1}', '-0']
+BOOLS = ['1', 't', 'T', 'TRUE', 'true', 'True', '0', 'f', 'F', 'FALSE', 'false', 'False']
+THRS = [0, 0, 1, 1, 2, 3, 5, 100, 2147483647]
+
+
+def dec_of(text):
+    """(neg, digits, e) with value = 0.d1..dn x 10^e of a decimal text (the structural description given to the spec)"""
+    from decimal import Decimal
+    sign, digits, exp = Decimal(text).as_tuple()
+    digits = list(digits)
+    while digits and digits[0] == 0:
+        digits.pop(0)
+    while digits and digits[-1] == 0:
+        digits.pop()
+        exp += 1
+    if not digits:
+        return False, [], 0
+    return bool(sign), digits, len(digits) + exp
+
+
+def respell(rng, text, kind):
+    """another spelling of the same number (what strconv accepts): sign, leading / trailing zeros, exponent notation"""
+    neg, dig, e = dec_of(text)
+    if kind == 0:
+        body = ''.join(map(str, dig)) + '0' * (e - len(dig)) if dig else '0'
+        x = rng.random()
+        return ('-' if neg else '+' if x < 0.15 else '') + ('00' if 0.15 <= x < 0.3 else '') + body
+    x = rng.random()
+    if x < 0.4 or not dig:
+        return text
+    ds = ''.join(map(str, dig))
+    if x < 0.7 or e > 25 or e < -12:          # scientific
+        m = ds[0] + ('.' + ds[1:] if len(ds) > 1 else '')
+        return ('-' if neg else '') + m + rng.choice(['e', 'E', 'e+' if e - 1 >= 0 else 'e']) + str(e - 1)
+    if e <= 0:
+        body = '0.' + '0' * (-e) + ds
+    elif e >= len(ds):
+        body = ds + '0' * (e - len(ds)) + rng.choice(['', '.0', '.'])
+    else:
+        body = ds[:e] + '.' + ds[e:] + rng.choice(['', '0', '00'])
+    return ('-' if neg else rng.choice(['', '', '+'])) + body
+
+
+def items_scenario(rng, tr):
+    """one hot-spot rule whose specificItems mix all four kinds: boundary-rich values, several spellings, thresholds 0 / 1 / large"""
+    items, seen = [], set()
+
+    def add(kind, text, base=None):
+        thr = rng.choice(THRS)
+        it = dict(kind=kind, text=text, thr=thr, neg=False, dig=[], e=0, s='', probe=False)
+        if kind in (0, 3):
+            neg, dig, e = dec_of(base if base is not None else text)
+            if kind == 0:             # an integer is described by ALL its digits
+                dig, e = dig + [0] * (e - len(dig)), 0
+            it.update(neg=neg, dig=dig, e=e)
+            key = (kind, neg, tuple(dig), e)
+            it['probe'] = thr <= 3 and (kind == 0 or len(dig) - e <= 5)
+        else:
+            it['s'] = text
+            key = (kind, text if kind == 1 else text in ('1', 't', 'T', 'TRUE', 'true', 'True'))
+            it['probe'] = thr <= 3
+        if key not in seen:
+            seen.add(key)
+            items.append(it)
+    for _ in range(rng.randint(3, 8)):
+        x = rng.random()
+        if x < 0.5:
+            y = rng.random()
+            if y < 0.45:
+                base = rng.choice(FLOATS)
+            elif y < 0.8:            # integers of 11..15 digits carried as float64 (ids, phone numbers), some with 1..2 decimals
+                n = rng.randint(11, 15)
+                base = str(rng.randrange(10 ** (n - 1), 10 ** n))
+                if n <= 13 and rng.random() < 0.3:
+                    base += '.' + str(rng.randrange(1, 10 ** min(2, 15 - n)))
+            else:                    # up to 15 significant digits anywhere
+                n, f = rng.randint(1, 9), rng.randint(1, 9)
+                f = min(f, 15 - n)
+                base = str(rng.randrange(10 ** (n - 1), 10 ** n)) + '.' + str(rng.randrange(0, 10 ** f)).rjust(f, '0')
+                if rng.random() < 0.3:
+                    base = '-' + base
+            add(3, respell(rng, base, 3), base)
+        elif x < 0.7:
+            base = rng.choice(INTS) if rng.random() < 0.6 else str(rng.randrange(-10 ** 13, 10 ** 13))
+            add(0, respell(rng, base, 0), base)
+        elif x < 0.9:
+            add(1, rng.choice(STRINGS))
+        else:
+            add(2, rng.choice(BOOLS))
+    probed = [it for it in items if it['probe']]
+    for it in probed[4:]:
+        it['probe'] = False
+    return [dict(op='new', tr=tr, m='hotspot', mode='handler', cnt=False, var=0), dict(op='items', items=items)]
+
+
 def maximal(hs):
     """drop histories that are proper prefixes of another history"""
     keys = sorted(set(json.dumps(x, sort_keys=True)[:-1] for x in hs if x))
@@ -225,6 +335,8 @@ def signature(mod, exp, ev):
     why = x.get('why', '?')
     before = sorted(x.get('before', []))
     key = None
+    if ev['op'] == 'items':
+        return None, '%s/items/%s' % (mod, why), why
     if ev['op'] == 'deliver':
         unchanged = before == sorted(ev['after'])
         if ev['panic']:
@@ -267,11 +379,17 @@ def param_key_dropped(ev):
 
 
 def size(s):
-    return sum(1 + len(o.get('l') or []) for o in s)
+    return sum(1 + len(o.get('l') or []) + len(o.get('items') or []) for o in s)
 
 
 def candidates(s):
     out = []
+    for i in range(1, len(s)):
+        if s[i]['op'] == 'items' and len(s[i]['items']) > 1:
+            for j in range(len(s[i]['items'])):
+                out.append(s[:i] + [dict(s[i], items=s[i]['items'][:j] + s[i]['items'][j + 1:])] + s[i + 1:])
+    if out:
+        return out
     for i in range(1, len(s)):
         if s[i]['op'] == 'fevent' and s[i]['ev'] == 'init':
             continue
@@ -358,6 +476,12 @@ def conclude(c, drv, groups):
         obs = {f: ev[f] for f in ('op', 'ev', 'cls', 'desc', 'err', 'panic', 'upd', 'seen', 'after') if f in ev}
         what = '%s handler: %s; the statement allows %s; observed %s; payload %r (%d traces of this kind)' % (
             mod, g['why'], exp[:300], json.dumps(obs)[:400], payload_of(ev)[:160], g['n'])
+        if ev['op'] == 'items':
+            fmt = lambda g: '%s %s%s%s thr %d' % (g['t'], '-' if g['neg'] else '', ('0.' + ''.join(map(str, g['dig'])) + 'e%d' % g['e']) if g['t'] == 'float' and g['dig']
+                                              else ''.join(map(str, g['dig'])) if g['t'] in ('int', 'float') else repr(g['s']) if g['t'] == 'string' else g['b'], '', g['thr'])
+            what = ('hotspot handler: %s: the payload\'s specificItems %s decode to the keys [%s]%s; the statement allows %s; payload %r (%d traces of this kind)' % (
+                g['why'], json.dumps([[it['kind'], it['text'], it['thr']] for it in ev['items']]), '; '.join(fmt(x) for x in ev['got']),
+                ', probes (item, requests, admitted) %s' % [[p['i'], p['n'], p['adm']] for p in ev['probes']] if ev['probes'] else '', exp[:500], payload_of(ev)[:300], g['n']))
         c.cov.setdefault('finding_groups', []).append(dict(group=gsig, traces=g['n'], replay=rp))
         if g['key'] and c.is_known(g['key']):
             c.known(g['key'], c.kf[g['key']]['description'])
@@ -419,6 +543,41 @@ def binding_selftest(c, tp, bad_trs):
         raise MachineryError('binding self-test failed: corrupted traces %s, rejected %s' % (sorted(want), sorted(got)))
     c.cov['binding_selftest'] = '%d corrupted traces, all rejected' % len(want)
     c.log('binding self-test: %d corrupted traces, all rejected by Datasource_Trace' % len(want))
+
+
+def binding_selftest_items(c, tp, bad_trs):
+    """specific-items traces: corrupt one reported key (a digit, the exponent, the type, the threshold, a probe count) in each
+    of the first good traces: every one must be rejected"""
+    lines = [json.loads(l) for l in open(tp)]
+    out, want, cur, kinds = [], set(), None, {}
+    for e in lines:
+        if e['op'] == 'new':
+            cur = e['tr']
+        elif cur not in bad_trs and len(want) < 60 and e['got']:
+            g = c.rng.choice(e['got'])
+            k = c.rng.choice(['digit', 'thr', 'type', 'exp', 'probe'])
+            if k == 'probe' and e['probes']:
+                p = c.rng.choice(e['probes'])
+                p['adm'] = p['adm'] + 1 if p['adm'] < p['n'] else p['adm'] - 1
+            elif k == 'digit' and g['dig']:
+                g['dig'][-1] = g['dig'][-1] % 9 + 1
+            elif k == 'exp' and g['t'] == 'float' and g['dig']:
+                g['e'] += 1
+            elif k == 'type':
+                g['t'] = 'int64'
+            else:
+                k, g['thr'] = 'thr', g['thr'] + 1 if g['thr'] < 2147483647 else 7
+            kinds[k] = kinds.get(k, 0) + 1
+            want.add(cur)
+        out.append(e)
+    cp = os.path.join(c.scratch, 'corrupt-items.ndjson')
+    write_ndjson(cp, out)
+    mism, consumed, r = c.validate('Datasource_Trace', cp, len(out))
+    got = {m[0] for m in mism} - set(bad_trs)
+    if got != want or not want:
+        raise MachineryError('binding self-test (specific items) failed: corrupted traces %s, rejected %s' % (sorted(want), sorted(got)))
+    c.cov['binding_selftest_items'] = '%d corrupted traces (%s), all rejected' % (len(want), kinds)
+    c.log('binding self-test (specific items): %d corrupted traces (%s), all rejected by Datasource_Trace' % (len(want), kinds))
 
 
 def nontrivial(trace_events):
@@ -496,6 +655,15 @@ def check(c, tier, replay):
         if not r.violated:
             raise MachineryError('spec-level mutant %s is not caught by the invariants (vacuous property?)\n%s' % (mut, r.out[-1500:]))
         caught.append('%s:%s' % (mut, r.violated))
+    # the converter of specific items: every decimal of a bounded universe is converted to a key the payload describes
+    r = c.model_check('Datasource_MC', cfg_text=mc_cfg(False, 1, 1, 'MCValid').replace('INVARIANTS TypeOK', 'INVARIANTS ConverterKeyIsDescribed TypeOK'), workers=2, timeout=600)
+    if not r.completed:
+        c.inconclusive.append('Datasource.tla: ConverterKeyIsDescribed does not hold (%s)' % (r.violated or r.error))
+    r = c.tlc('Datasource_MC', cfg_text=mc_cfg(False, 1, 1, 'MCValid', mutant='itemTruncates').replace('INVARIANTS TypeOK', 'INVARIANTS ConverterKeyIsDescribed TypeOK'),
+              workers=2, timeout=600, count=False)
+    if not (r.violated == 'ConverterKeyIsDescribed' or 'ConverterKeyIsDescribed is equal to FALSE' in r.out):
+        raise MachineryError('spec-level mutant itemTruncates is not caught (vacuous ConverterKeyIsDescribed?)\n%s' % r.out[-1500:])
+    caught.append('itemTruncates:ConverterKeyIsDescribed')
     c.cov['spec_mutants_caught'] = caught
     c.log('S1 vacuity: %d broken designs, all caught (%s)' % (len(caught), ', '.join(caught)))
     c.cov['exhaustive'] = True
@@ -549,15 +717,23 @@ def check(c, tier, replay):
         tr += len(p)
         pats += p
 
+    itms = []
+    for _ in range(200 if not thorough else 3000):
+        tr += 1
+        itms.append(items_scenario(rng, tr))
+
     # S3 + S4 ----------------------------------------------------------------------------
     groups, nt, classes = {}, set(), {}
     selftested = False
-    for tag, group in (('tlc', scns), ('patterns', pats), ('mutations', muts), ('wire', wires), ('prefixes', truncs), ('file', fscns)):
+    for tag, group in (('tlc', scns), ('patterns', pats), ('mutations', muts), ('wire', wires), ('prefixes', truncs), ('items', itms), ('file', fscns)):
         for i in range(0, len(group), 3000):
             part = group[i:i + 3000]
             mism, tp = run_and_validate(c, drv, part, '%s%d' % (tag, i))
             c.cov['conformance_mismatches'] += len(mism)
             collect(groups, part, mism)
+            if tag == 'items':
+                binding_selftest_items(c, tp, {m[0] for m in mism})
+                continue
             count_cover(c, tp, nt, classes)
             if not selftested and tag == 'tlc':
                 binding_selftest(c, tp, {m[0] for m in mism})
@@ -573,7 +749,16 @@ def check(c, tier, replay):
     if missing:
         c.inconclusive.append('payload classes / file events never exercised: %s' % ', '.join(missing))
     c.cov['events_by_module_and_class'] = classes
-    c.cov['distinct_nontrivial'] = len(nt)
+    its = [it for s in itms for it in s[1]['items']]
+    big = [it for it in its if it['kind'] == 3 and it['e'] >= 11]
+    c.cov['specific_items_wire_format'] = dict(
+        scenarios=len(itms), items=len(its), by_kind={k: sum(1 for it in its if it['kind'] == k) for k in range(4)},
+        distinct_values=len({json.dumps([it['kind'], it['neg'], it['dig'], it['e'], it['s']]) for it in its}),
+        floats_of_11_to_15_integer_digits=len(big), floats_with_more_than_five_decimals=sum(1 for it in its if it['kind'] == 3 and len(it['dig']) - it['e'] > 5),
+        probed=sum(1 for it in its if it['probe']))
+    if len(big) < 60:
+        c.inconclusive.append('specific items: only %d float keys of 11..15 integer digits were delivered' % len(big))
+    c.cov['distinct_nontrivial'] = len(nt) + len({json.dumps(s[1], sort_keys=True) for s in itms})
     c.cov['rule'] = ('scenarios = seeded sample of one-per-transition histories of the bounded Datasource spec (%d handler, %d file histories before '
                      'sampling) x 5 parsers + TLC simulation + seeded payload mutations / raw bytes + wire-format round trips + payload prefixes + '
                      'fixed patterns; non-trivial = distinct (module, payload identities, observed states) sequence in which the rules in force '
@@ -582,6 +767,8 @@ def check(c, tier, replay):
     c.sample(muts[0][:5])
     c.sample(fscns[0] if fscns else pats[-1])
     c.assumptions += [
+        'specific items: numeric texts have at most 15 significant digits (or are exactly representable / the shortest spelling of a float64) so that the float64 the '
+        'text is read into round-trips to the described decimal; on an exact five-decimal tie either neighbour is accepted; int texts fit int64; thresholds < 2^31 (TLC)',
         '"all byte strings" is sampled: classes are enumerated by TLC, concrete bytes by seeded mutation of valid payloads, raw random bytes and payload prefixes (every prefix in the thorough tier)',
         'what a payload describes is decided by the driver with encoding/json and its own mirror of the wire format (struct tags of core/<module>/rule.go; hot-spot specificItems in the ext/datasource encoding); validity of a described rule is the module\'s exported IsValid... function (the validity filter itself is property C13)',
         'rules are compared as sets of canonical field tuples; ids only in single-delivery wire-format scenarios (the rule managers ignore the id in their equality); flow warmUpColdFactor <= 1 on a warm-up rule and the hot-spot specificItems encoding are normalised on both sides',
